@@ -148,7 +148,22 @@ type workItem struct {
 
 func instanceStub(pkgName string, items []workItem) string {
 	var b strings.Builder
-	b.WriteString("//go:build verif\n\npackage " + pkgName + "\n\nvar _ = []any{\n")
+	b.WriteString("//go:build verif\n\npackage " + pkgName + "\n\n")
+	// standard-library packages named in type arguments (e.g. time.Duration)
+	imports := map[string]bool{}
+	for _, it := range items {
+		for _, inst := range it.c.Instances {
+			for _, std := range []string{"time", "context"} {
+				if strings.Contains(inst, std+".") {
+					imports[std] = true
+				}
+			}
+		}
+	}
+	for _, im := range keysOf(imports) {
+		b.WriteString("import \"" + im + "\"\n")
+	}
+	b.WriteString("\nvar _ = []any{\n")
 	n := 0
 	for _, it := range items {
 		for _, inst := range it.c.Instances {
